@@ -325,3 +325,19 @@ func TestC01Exhaustive(t *testing.T) {
 }
 
 var _ = metav1.Now
+
+// FuzzC01: raw annotation bytes and replica count under Go's native fuzzer (thorough tier).
+func FuzzC01(f *testing.F) {
+	for _, s := range malformedAnns {
+		f.Add(uint8(3), []byte(s))
+	}
+	f.Add(uint8(5), []byte("[1,3,-1,2147483647]"))
+	r := rec("C01")
+	f.Fuzz(func(t *testing.T, rr uint8, ann []byte) {
+		c := C01Case{R: int32(rr % 13), HasAnn: true, Ann: string(ann), SetName: "web"}
+		p := &P{T: t, base: base{id: "C01", r: r}}
+		defer p.finish()
+		p.caseVal = c
+		runC01(p, c)
+	})
+}
